@@ -36,7 +36,8 @@ def cuts_for(rnd, n, kind):
     if kind == 'bytes': return 'b1'
     if kind.startswith('b'): return kind
     k = int(kind[1:]) if kind.startswith('k') else 2
-    pts = sorted(rnd.randrange(0, n + 1) for _ in range(k))
+    pts = sorted(set(rnd.randrange(1, max(n, 2)) for _ in range(k)))     # no empty fragments
     out = []; prev = 0
     for p in pts: out.append(p - prev); prev = p
-    return ','.join(str(x) for x in out)
+    return ','.join(str(x) for x in out) or '-'
+
